@@ -81,3 +81,65 @@ def hist(ops: List[int]) -> int:
         lexer.Lexer.get_default_instance().default_initialization()
         return 2
     return 1
+
+
+# ---- re-entrant calls ----------------------------------------------------------------------------------
+# The lexer reads a text stream lazily, at the first step of the pipeline's generators -- i.e. after
+# split()/parse()/format() have built (or fetched) their filter stack and statement splitter.  A stream
+# whose read() itself calls the library therefore interleaves a complete inner call with the outer one in
+# ONE thread, deterministically: any state the two calls share (a cached FilterStack, a StatementSplitter
+# kept on an instance, lexer scan state) is then seen dirty by the outer call.  This is the replayable
+# single-thread image of "other calls run while this one is in progress".
+import io
+
+NENTRY = 4
+INNER = ['create function f() begin x', 'select (1; select 2', "if a then b; 'x", 'declare c cursor for select 1; 2']
+
+
+class _Reentrant(io.TextIOBase):
+    def __init__(self, text, k, j):
+        self.text, self.k, self.j = text, k, j
+
+    def read(self, *a):
+        if self.k is not None:
+            k, self.k = self.k, None
+            if k < NOPS:
+                _op(k)
+            else:
+                inner = INNER[k - NOPS]
+                _entry(self.j, inner)              # same entry point, a script that leaves the splitter mid-block
+                _entry((self.j + 1) % NENTRY, inner)
+        return self.text
+
+
+def _entry(j, sql):
+    if j == 0:
+        return [[(str(tok.ttype), tok.value) for tok in s.flatten()] for s in sqlparse.parse(sql)]
+    if j == 1:
+        return sqlparse.split(sql)
+    if j == 2:
+        return sqlparse.format(sql, reindent=True, keyword_case='upper')
+    return [str(s) for s in sqlparse.parsestream(sql)]
+
+
+RTEXTS = TEXTS + ['select 1; begin; select 2; end; select 3']
+RBASE = [[_entry(j, io.StringIO(t)) for t in RTEXTS] for j in range(NENTRY)]
+
+
+def reent(k: int, j: int) -> int:
+    """
+    pre: 0 <= k < NOPS + len(INNER)
+    pre: 0 <= j < NENTRY
+    post: _ != 2
+    """
+    k = conc(k, NOPS + len(INNER) - 1)
+    j = conc(j, NENTRY - 1)
+    try:
+        now = [_entry(j, _Reentrant(t, k, j)) for t in RTEXTS]
+    except Exception:
+        lexer.Lexer.get_default_instance().default_initialization()
+        return 2
+    if now != RBASE[j]:
+        lexer.Lexer.get_default_instance().default_initialization()
+        return 2
+    return 1
